@@ -695,6 +695,7 @@ func (fr *Frame) ret(x *ssa.Return, st *State, g string) {
 			fc.oblige(fr, "panic-iff", "", g, not(or(fr.panicsWhenOld...)), x.Pos(), "normal return only outside the documented panic condition", fr.props())
 		}
 		fr.applyHints("return", "", x.Block(), st, g, res)
+		fr.checkFrame(st, g, "return", x.Pos(), nil)
 		env := fr.specEnv(st, fr.entry)
 		fr.bindResults(env, res)
 		for i, cl := range fr.spec.Ensures {
